@@ -42,6 +42,27 @@ CHECKS = {
              "scalar and broadcast shifts of either sign, whole/fractional bins, beyond the bandwidth; NumPy and Dask) is judged per "
              "element against an independent complex128/longdouble oracle; type/dtype/labels/times must be unchanged.",
         ref="DESIGN.md section 2 C04"),
+    "C05": dict(
+        technique="runtime monitoring: postcondition monitors on chirp_function / chirp_from_signal (phase law evaluated in longdouble "
+                  "from exact differences, cross-checked with Fractions) and on coherent_dedispersion (independent DFT reference, "
+                  "exact-rational crop bounds and start time)",
+        text="Exploration: every chirp and every coherent dedispersion produced by a stratified workload over DM (both signs, several "
+             "units), band, reference frequency, length (odd, prime powers), channel layout, width and backend is judged against the "
+             "analytic cold-plasma transfer function and IDFT(DFT(x) H)[start:stop]; supplied chirps and DM/-DM round trips included.",
+        ref="DESIGN.md section 2 C05"),
+    "C06": dict(
+        technique="runtime monitoring: postcondition monitor on time_delay/sample_delay (exact rational f^-2 law) and source-tracing "
+                  "monitor on incoherent_dedispersion using inputs whose samples encode (time index, channel)",
+        text="Exploration: every delay evaluation (also those made internally by the dedispersion routines) is compared with the exact "
+             "law; every output sample of incoherent dedispersion is decoded to its source index and compared with the exact rounded "
+             "delay at the channel label and the output start time.",
+        ref="DESIGN.md section 2 C06"),
+    "C12": dict(
+        technique="runtime monitoring: postcondition monitor on every snippet call (length, exact-rational start time, bitwise slice "
+                  "equality for whole-sample t, independent DFT interpolation reference otherwise) plus refusal oracle",
+        text="Exploration: snippet requests in all three forms of t over stratified signals, offsets (integers, halves, eps, deep small "
+             "fractions) and lengths incl. n=0 and n=len, and out-of-range / invalid requests, each judged online.",
+        ref="DESIGN.md section 2 C12"),
     "C16": dict(
         technique="runtime monitoring: class-invariant hook on every construction and every operation result, refusal oracle on "
                   "hostile arguments, attribute-equality oracle on copies, sys.monitoring failpoints inside constructors",
